@@ -23,8 +23,11 @@ func coreC17(tier string) []RunSpec {
 			}
 		}
 	}
-	out = append(out, RunSpec{Profile: "core:sigall-crossmint", Params: map[string]int{"scenario": 1, "fee": 0, "mints": 2}})
-	out = append(out, RunSpec{Profile: "core:sigall-crossmint-pending-again", Params: map[string]int{"scenario": 2, "fee": 0, "mints": 2}})
+	out = append(out, RunSpec{Profile: "core:sigall-crossmint", Params: map[string]int{"scenario": 1, "fee": 0, "fee2": 0, "mints": 2}})
+	out = append(out, RunSpec{Profile: "core:sigall-crossmint-pending-again", Params: map[string]int{"scenario": 2, "fee": 0, "fee2": 0, "mints": 2}})
+	for k := 0; k < 6; k++ {
+		out = append(out, RunSpec{Profile: "core:rotation-then-reload", Params: map[string]int{"scenario": 4, "fee": k % 3, "mints": 1, "k": k}})
+	}
 	for k := 0; k < 4; k++ {
 		out = append(out, RunSpec{Profile: "core:melt-pending-past-expiry", Params: map[string]int{"scenario": 3, "fee": k % 3, "mints": 1, "k": k}})
 	}
@@ -77,7 +80,11 @@ func runC17(rc *RunCtx) {
 	}
 	fees := []uint{c17Fees[fi]}
 	if nm == 2 {
-		fees = append(fees, c17Fees[T.Choose("cfg.fee2", 3)])
+		f2 := T.Choose("cfg.fee2", 3)
+		if v, ok := rc.Spec.Params["fee2"]; ok {
+			f2 = v
+		}
+		fees = append(fees, c17Fees[f2])
 	}
 	ln := LNConfig{FeePolicy: 1 + T.Choose("cfg.feepol", 3), PayOutcomeMix: T.Choose("cfg.mix", 2)}
 	ww := rc.NewWalletWorld(ln, fees, 2+T.Choose("cfg.wallets", 2))
@@ -91,6 +98,26 @@ func runC17(rc *RunCtx) {
 	ww.CheckWallets("start")
 	if rc.P("scenario", 0) == 1 {
 		c17SigAllCrossMint(ww, 1)
+		rc.Nontrivial = true
+		return
+	}
+	if rc.P("scenario", 0) == 4 {
+		// rotation noticed by the wallets, then the wallet programs are restarted: what they know
+		// about old and new keysets must come back from storage
+		seq := []string{"mint", "send", "send", "rotate", "mint", "mint", "mint", "reload", "reload", "reload", "reload",
+			"receive", "receive", "reclaim", "reclaim", "send", "send", "receive", "reload", "reload", "send", "melt"}
+		for i, k := range seq {
+			ww.step = i
+			for idx, name := range wwKinds {
+				if name == k {
+					ww.Step(idx)
+				}
+			}
+			ww.CheckWallets("step")
+		}
+		ww.Settle()
+		ww.CheckWallets("settled")
+		rc.S.Probe("c17_rotation_then_reload")
 		rc.Nontrivial = true
 		return
 	}
@@ -160,6 +187,9 @@ func c17SigAllCrossMint(ww *WW, amount uint64) {
 	ww.step = 0
 	from, to := ww.Wallets[1], ww.Wallets[0]
 	mint := mintNameOfURL(ww.node(from).Mint)
+	if ww.balanceAt(from, mint) < amount+8 {
+		ww.mintInto(from, amount+32) // the initial funding went to wallets drawn from the tape
+	}
 	toKey := ww.node(to).W.GetReceivePubkey()
 	var proofs cashu.Proofs
 	var err error
